@@ -179,6 +179,11 @@ def collisionTags (ms : List Msg) : List String :=
   | [] => []
   | m :: _ => [if m.old then "nt-keyed-old-first" else "nt-keyed-flash-first"]
 
+/-- the finishers that complete the redirect (`To`, `Back` with a Referer or a fallback, `Route` without /
+with params / with queries): the model issues the cookie for every one of them alike -/
+def completing (e : String) : Bool :=
+  e == "to" || e == "backref" || e == "backfb" || e == "route" || e == "routep" || e == "routeq"
+
 /-- issuing history on one app: the pooled `Redirect` is threaded through the steps (`Pooled`) -/
 def handleIsh (id : String) (cols : List String) (ends obs : String) : Except String Verdict := do
   let colsS := cols.map (·.splitOn "|")
@@ -186,7 +191,7 @@ def handleIsh (id : String) (cols : List String) (ends obs : String) : Except St
   let obsS := obs.splitOn "|"
   let n := endsS.length
   if colsS.any (·.length ≠ n) ∨ obsS.length ≠ n ∨ cols.length ≠ 6 then throw "outside-domain: ragged history"
-  if endsS.any (fun e => e ≠ "to" ∧ e ≠ "ok" ∧ e ≠ "back") then throw "outside-domain: ending"
+  if endsS.any (fun e => !completing e ∧ e ≠ "ok" ∧ e ≠ "back") then throw "outside-domain: ending"
   let rec go (i : Nat) (pool : Pooled) (fuel : Nat) : Except String (List String × List (Option String) × List (Option String) × List String) :=
     match fuel with
     | 0 => pure ([], [], [], [])
@@ -204,21 +209,21 @@ def handleIsh (id : String) (cols : List String) (ends obs : String) : Except St
         let some iss := parseOpt issS | throw "outside-domain: issued"
         -- model: run the chain on the pooled Redirect, in the map orders the implementation used
         let cands := (orderChoices s.inputs s.wipos.length).map fun orders => pool.run (interleave s.calls s.wipos orders)
-        let pick := fun (p : Pooled) => if e = "to" then issueOnWire p.visible = iss else true
+        let pick := fun (p : Pooled) => if completing e then issueOnWire p.visible = iss else true
         let p' := (cands.find? pick).getD (cands.headD pool)
-        let mIss := if e = "to" then issueOnWire p'.visible else none
-        let mSt := if e = "to" then 302 else if e = "ok" then 200 else 500
+        let mIss := if completing e then issueOnWire p'.visible else none
+        let mSt := if completing e then 302 else if e = "ok" then 200 else 500
         let flash := expectedFlash s.calls
         let old := expectedOldN s.wipos.length s.inputs
-        let spec := specIssue flash old { completes := e = "to", status := st, issued := iss }
+        let spec := specIssue flash old { completes := completing e, status := st, issued := iss }
         let known := if Known.K1for spec true (flash ++ old) then some "K1" else none
         let (mo, sp, kn, tg) ← go (i + 1) p'.release fuel
         pure (s!"{mSt}/{optHex mIss}" :: mo, spec :: sp, known :: kn, ("end-" ++ e) :: (scriptTags s ++ tg))
   let (mo, specs, knowns, tags) ← go 0 ⟨[], []⟩ (n + 1)
   let failing := (specs.zip knowns).find? (·.1.isSome)
-  let incomplete := (endsS.take (n - 1)).any (· ≠ "to")
+  let incomplete := (endsS.take (n - 1)).any (!completing ·)
   pure { id := id, modelObs := "|".intercalate mo, implObs := obs, spec := failing.bind (·.1), known := failing.bind (·.2),
-         tags := "ish" :: ((if incomplete ∧ endsS.getLast? = some "to" then ["nt-ish-after-incomplete"] else []) ++ tags.eraseDups) }
+         tags := "ish" :: ((if incomplete ∧ (endsS.getLast?.map completing).getD false then ["nt-ish-after-incomplete"] else []) ++ tags.eraseDups) }
 
 def parseMode : String → Option RelayMode
   | "same" => some .same
